@@ -12,7 +12,7 @@ EXPLANATION = ('Guard, census and comparison-shape rules over lightning::routing
 	'before the *_intern routines run; node announcements replace only strictly older ones; duplicate channel announcements are refused unless UTXO-validated, recently removed '
 	'channels/nodes are refused; permanent failures remove the channel (and orphaned nodes) and leave a tombstone; stale directions are dropped by `last_update < now - 14d` and channels '
 	'pruned only when a direction is missing and the announcement is old; pending (UTXO-lookup) messages are replayed through the verifying entry points when they carry a signature; '
-	'the graph maps are mutated only in the frozen function set. Decides these shapes on all paths; order-independence (confluence) and RGS snapshot semantics are not decided.')
+	'the graph maps are mutated only in the frozen function set. Also: a channel leaving the graph is unlinked from the nodes of the stored entry, never of a caller-supplied ChannelInfo. Decides these shapes on all paths; order-independence (confluence) and RGS snapshot semantics are not decided.')
 ASSUMPTIONS = ['secp256k1::verify_ecdsa is correct', 'UtxoLookup implementations answer truthfully']
 
 def _eqne(fu, pred):
